@@ -134,8 +134,22 @@ def check_accumulate(ctx, tables):
     for var in ("obs", "fcst"):
         v = t[var]["value"]
         k = v.key() if isinstance(v, Rat) else ""
-        axnum = "ifexp(cmp_eq($args.axis - str:'leadtime'(),0),1,ifexp(cmp_eq($args.axis - str:'time'(),0),0"
-        ok = ("cumsum(call:copy.deepcopy(attr:%s($INPUT)),('kw:axis',%s" % (var, axnum)) in k and ("nancumsum(call:copy.deepcopy(attr:%s($INPUT)),('kw:axis',%s" % (var, axnum)) in k
+        # by value: with -x leadtime / -x time the cumulative sums run along axis 1 / 0 (however the name is mapped to the number)
+        ok = isinstance(v, Rat)
+        for axname_, axnum_ in (("leadtime", 1), ("time", 0)):
+            try:
+                vv = form.subst(v, {"args.axis": form.apply("str:" + repr(axname_), [])}) if isinstance(v, Rat) else None
+            except form.Undefined:
+                vv = None
+            found = {}
+            if vv is not None:
+                for fn_ in ("cumsum", "nancumsum"):
+                    for at_ in q.atoms(vv, fn_):
+                        kw_ = {x_[0][3:]: x_[1] for x_ in at_.args if isinstance(x_, tuple) and x_ and isinstance(x_[0], str) and x_[0].startswith("kw:")}
+                        src_ok = isinstance(at_.args[0], Rat) and at_.args[0].key() == "call:copy.deepcopy(attr:%s($INPUT))" % var
+                        if src_ok and isinstance(kw_.get("axis"), Rat):
+                            found[fn_] = kw_["axis"].const_value()
+            ok = ok and found.get("cumsum") == axnum_ and found.get("nancumsum") == axnum_
         ctx.ob("C20.2", "scripts.accumulate.main", ok, "cumulative mode: (nan)cumsum of '%s' along leadtime=1 / time=0" % var, msg="cumulative branch of '%s' is %s" % (var, k[:200]))
         ok = ("call:scripts.accumulate.convolve(call:copy.deepcopy(attr:%s($INPUT)),$args.w,$args.ignore,$args.axis)" % var) in k
         ctx.ob("C20.2", "scripts.accumulate.main", ok, "windowed mode: convolve('%s' copy, w, ignore, axis)" % var, msg="windowed branch of '%s' is %s" % (var, k[:200]))
@@ -181,6 +195,13 @@ def check_ens2prob(ctx, tables):
     for cand in q.atoms(v, "setitem"):
         pass
     cdf_st = q.top(v, "setitem")
+    if cdf_st is None:
+        # the store may sit under the `if thresholds were requested` condition once the computation lives in a helper: the store whose
+        # stored value contains the member mean
+        for cand in q.atoms(v, "setitem"):
+            if len(cand.args) == 3 and isinstance(cand.args[2], Rat) and a.key in cand.args[2].key() and isinstance(cand.args[1], tuple):
+                cdf_st = cand
+                break
     scal_ok = False
     if cdf_st is not None:
         stored = cdf_st.args[2]
